@@ -88,10 +88,21 @@ Definition run_allocate (a : list Z) : list Z :=
   | _ => [-1]
   end.
 
+Fixpoint parse_pairs (a : list Z) : list (Z * Z) :=
+  match a with
+  | k :: v :: rest => (k, v) :: parse_pairs rest
+  | _ => []
+  end.
+
+(* CMD range_alignments = 6 : (equivalence id, requested alignment)* in request order -> (equivalence id, get_alignment())* *)
+Definition run_range_alignments (a : list Z) : list Z :=
+  flat_map (fun p => [fst p; snd p]) (range_alignments (parse_pairs a)).
+
 Definition run (cmd : Z) (a : list Z) : list Z :=
   if cmd =? 1 then run_greedy a
   else if cmd =? 2 then run_linear a
   else if cmd =? 3 then run_hillclimb a
   else if cmd =? 4 then run_hc_static a
   else if cmd =? 5 then run_allocate a
+  else if cmd =? 6 then run_range_alignments a
   else [-1].
